@@ -1,6 +1,7 @@
 //! local (single-thread) instantiation of the pipeline builder
 #![allow(unused_macros, dead_code)]
 use crate::ast::*;
+use crate::common::*;
 use crate::value::*;
 use crate::vtime::{as_ticks, ticks, VSched};
 use rxrust::ops::throttle::ThrottleEdge;
